@@ -125,58 +125,68 @@ def _child(spec, script, args, cwd, stdin_fd, out_fd, err_fd, trace_fd, plan, en
         os._exit(code)
 
 
-def run(spec, script, args, cwd=None, stdin="", plan=None, env=None, tty=False,
-        gate_fds=None):
-    """Execute one command in the current world.  Returns Result.
+class Handle(object):
+    pass
 
-    stdin: text fed to the command's standard input (a regular memfd, so EOF
-    follows the text); tty=True gives the command a pseudo terminal instead.
-    """
+
+def spawn(spec, script, args, cwd=None, stdin="", plan=None, env=None, tty=False,
+          close_in_child=(), keep_in_parent=()):
+    """fork a command child; returns a Handle for finish()."""
     COUNT[0] += 1
+    h = Handle()
     cwd = cwd or spec.get("cwd", "/")
-    out_fd = _memfd("out")
-    err_fd = _memfd("err")
-    trace_fd = _memfd("trace")
-    master = None
+    h.out_fd = _memfd("out")
+    h.err_fd = _memfd("err")
+    h.trace_fd = _memfd("trace")
+    h.master = None
     if tty:
-        master, stdin_fd = os.openpty()
+        h.master, h.stdin_fd = os.openpty()
     else:
-        stdin_fd = _memfd("in", stdin.encode("utf-8", "surrogateescape"))
+        h.stdin_fd = _memfd("in", stdin.encode("utf-8", "surrogateescape"))
     plan = dict(plan or {})
     sys.stdout.flush()
     sys.stderr.flush()
     pid = os.fork()
     if pid == 0:
-        if master is not None:
-            os.close(master)
+        for fd in close_in_child:
+            try:
+                os.close(fd)
+            except OSError:
+                pass
+        if h.master is not None:
+            os.close(h.master)
             os.setsid()
             try:
                 import fcntl
                 import termios
-                fcntl.ioctl(stdin_fd, termios.TIOCSCTTY, 0)
+                fcntl.ioctl(h.stdin_fd, termios.TIOCSCTTY, 0)
             except Exception:
                 pass
-        _child(spec, script, args, cwd, stdin_fd, out_fd, err_fd, trace_fd, plan, env, tty)
-    if master is not None:
-        if stdin is not None:
-            os.write(master, stdin.encode("utf-8", "surrogateescape"))
-    _, status = os.waitpid(pid, 0)
+        _child(spec, script, args, cwd, h.stdin_fd, h.out_fd, h.err_fd, h.trace_fd, plan, env, tty)
+    h.pid = pid
+    if h.master is not None and stdin is not None:
+        os.write(h.master, stdin.encode("utf-8", "surrogateescape"))
+    return h
+
+
+def finish(h):
+    _, status = os.waitpid(h.pid, 0)
     sig = None
     if os.WIFSIGNALED(status):
         sig = os.WTERMSIG(status)
         code = 128 + sig
     else:
         code = os.WEXITSTATUS(status)
-    out = _slurp(out_fd)
-    err = _slurp(err_fd)
-    tr = _slurp(trace_fd)
+    out = _slurp(h.out_fd)
+    err = _slurp(h.err_fd)
+    tr = _slurp(h.trace_fd)
     stdin_used = 0
-    if master is None:
-        stdin_used = os.lseek(stdin_fd, 0, 1)
-    for fd in (out_fd, err_fd, trace_fd, stdin_fd):
+    if h.master is None:
+        stdin_used = os.lseek(h.stdin_fd, 0, 1)
+    for fd in (h.out_fd, h.err_fd, h.trace_fd, h.stdin_fd):
         os.close(fd)
-    if master is not None:
-        os.close(master)
+    if h.master is not None:
+        os.close(h.master)
     t = {"trace": [], "n_all": 0, "n_mut": 0, "stdin_reads": 0}
     if tr:
         try:
@@ -188,3 +198,84 @@ def run(spec, script, args, cwd=None, stdin="", plan=None, env=None, tty=False,
     return Result(code, out.decode("utf-8", "surrogateescape"),
                   err.decode("utf-8", "surrogateescape"), t["trace"], t["n_all"], t["n_mut"],
                   stdin_used, sig)
+
+
+def run(spec, script, args, cwd=None, stdin="", plan=None, env=None, tty=False):
+    """Execute one command in the current world and wait for it.  Returns Result.
+
+    stdin: text fed to the command's standard input (a regular memfd, so EOF
+    follows the text); tty=True gives the command a pseudo terminal instead.
+    """
+    return finish(spawn(spec, script, args, cwd, stdin, plan, env, tty))
+
+
+def run_scheduled(spec, jobs, schedule, prefixes, max_steps=5000):
+    """Run several commands concurrently under a harness-owned schedule.
+
+    jobs: list of (script, args, kwargs).  Every os-level operation of a child on a path
+    under one of `prefixes` is a scheduling point: the child reports it and blocks until
+    released.  Exactly one child runs at a time.  schedule: list of (process, steps)
+    segments; when exhausted the remaining processes run to completion in index order.
+    Returns (results, steps) where steps is the executed [(process, op, path)] sequence.
+    """
+    import select
+    n = len(jobs)
+    rep = [os.pipe() for _ in range(n)]
+    go = [os.pipe() for _ in range(n)]
+    hs = []
+    for i, (script, args, kw) in enumerate(jobs):
+        plan = dict(kw.pop("plan", None) or {})
+        plan["gate"] = (rep[i][1], go[i][0], list(prefixes))
+        close = [rep[j][0] for j in range(n)] + [go[j][1] for j in range(n)] + \
+            [rep[j][1] for j in range(n) if j != i] + [go[j][0] for j in range(n) if j != i]
+        hs.append(spawn(spec, script, args, plan=plan, close_in_child=close, **kw))
+    for i in range(n):
+        os.close(rep[i][1])
+        os.close(go[i][0])
+    state = ["running"] * n   # running | waiting | done
+    pending = [None] * n
+    bufs = [b""] * n
+
+    def pump(i):
+        """block until child i is at a gate or has exited"""
+        while state[i] == "running":
+            r, _, _ = select.select([rep[i][0]], [], [], 30)
+            if not r:
+                raise sandbox.HarnessError("scheduled child %d silent for 30 s" % i)
+            data = os.read(rep[i][0], 65536)
+            if not data:
+                state[i] = "done"
+                return
+            bufs[i] += data
+            if b"\n" in bufs[i]:
+                line, _, bufs[i] = bufs[i].partition(b"\n")
+                pending[i] = json.loads(line)
+                state[i] = "waiting"
+
+    for i in range(n):
+        pump(i)
+    steps = []
+    segs = [list(s) for s in schedule]
+    while any(s == "waiting" for s in state) and len(steps) < max_steps:
+        cur = None
+        while segs:
+            p, k = segs[0]
+            p = p % n
+            if k <= 0 or state[p] != "waiting":
+                segs.pop(0)
+                continue
+            segs[0][1] -= 1
+            cur = p
+            break
+        if cur is None:
+            cur = [i for i in range(n) if state[i] == "waiting"][0]
+        steps.append((cur, pending[cur][0], pending[cur][1]))
+        state[cur] = "running"
+        os.write(go[cur][1], b"g")
+        pump(cur)
+    for i in range(n):
+        os.close(go[i][1])   # anything still blocked sees EOF and exits 97
+    results = [finish(h) for h in hs]
+    for i in range(n):
+        os.close(rep[i][0])
+    return results, steps
